@@ -192,6 +192,7 @@ func (sb *seqbag) AppendSeqIdentifier(identifier string, right bool) {
 				seq.name = identifier + seq.name
 			}
 		}
+		sb.reindex()
 	}
 }
 
@@ -285,12 +286,25 @@ func (sb *seqbag) CleanNames(namemap map[string]string) {
 			namemap[old] = seq.name
 		}
 	}
+	sb.reindex()
 }
 
 // Removes all the sequences from the seqbag
 func (sb *seqbag) Clear() {
 	sb.seqmap = make(map[string]*seq)
 	sb.seqs = make([]*seq, 0, 100)
+}
+
+// reindex rebuilds the name index from the names the sequences have now.
+// To be called by every operation that changes names in place. If two
+// sequences have the same name, the index points to the first one.
+func (sb *seqbag) reindex() {
+	sb.seqmap = make(map[string]*seq, len(sb.seqs))
+	for _, s := range sb.seqs {
+		if _, ok := sb.seqmap[s.name]; !ok {
+			sb.seqmap[s.name] = s
+		}
+	}
 }
 
 func (sb *seqbag) CloneSeqBag() (SeqBag, error) {
@@ -808,6 +822,7 @@ func (sb *seqbag) Rename(namemap map[string]string) {
 		// 	io.PrintMessage("Sequence " + a.seqs[seq].name + " not present in the map file")
 		// }
 	}
+	sb.reindex()
 }
 
 // Shuffle the order of the sequences in the alignment
@@ -835,6 +850,7 @@ func (sb *seqbag) RenameRegexp(regex, replace string, namemap map[string]string)
 		namemap[sb.seqs[seq].name] = newname
 		sb.seqs[seq].name = newname
 	}
+	sb.reindex()
 	return nil
 }
 
@@ -1107,10 +1123,9 @@ func (sb *seqbag) TrimNames(namemap map[string]string, size int) error {
 			shortmap[newname] = true
 			namemap[seq.Name()] = newname
 		}
-		delete(sb.seqmap, seq.name)
 		seq.name = newname
-		sb.seqmap[seq.name] = seq
 	}
+	sb.reindex()
 
 	return nil
 }
@@ -1132,6 +1147,7 @@ func (sb *seqbag) TrimNamesAuto(namemap map[string]string, curid *int) (err erro
 		}
 		seq.name = newname
 	}
+	sb.reindex()
 	return
 }
 
